@@ -204,6 +204,48 @@ class PyClass:
         return out
 
 
+def _simple(e: ast.AST) -> bool:
+    """No call, no subscript, no await/yield anywhere inside: evaluating it has no effect and cannot be affected by another call."""
+    return not any(isinstance(x, (ast.Call, ast.Subscript, ast.Await, ast.Yield, ast.YieldFrom, ast.NamedExpr, ast.Lambda, ast.ListComp, ast.SetComp, ast.DictComp, ast.GeneratorExp, ast.IfExp, ast.BoolOp)) for x in ast.walk(e))
+
+
+def _fold_into(st: ast.stmt, t: str, value: ast.expr) -> bool:
+    """Fold `t = value` into the next statement when `t` is used there exactly once as a call argument (or the call's only
+    positional argument of an expression statement / assignment / return) and everything Python evaluates before that argument in the
+    statement is simple - so `value` is still evaluated first and the order of effects is unchanged."""
+    root: ast.expr | None = None
+    if isinstance(st, ast.Expr):
+        root = st.value
+    elif isinstance(st, ast.Assign) and len(st.targets) == 1 and _simple(st.targets[0]) is not None:
+        root = st.value        # the right-hand side is evaluated before the targets
+    elif isinstance(st, ast.Return):
+        root = st.value
+    if not isinstance(root, ast.Call):
+        return False
+    call = root
+    if not _simple(call.func):
+        return False
+    slots: list[tuple[list, int] | tuple[ast.keyword, None]] = []
+    for i, a_ in enumerate(call.args):
+        if isinstance(a_, ast.Starred):
+            return False
+        if isinstance(a_, ast.Name) and a_.id == t:
+            if not all(_simple(x) for x in call.args[:i]):
+                return False
+            rest = list(call.args[i + 1:]) + [k.value for k in call.keywords]
+            if any(isinstance(x, ast.Name) and x.id == t for r_ in rest for x in ast.walk(r_)):
+                return False
+            call.args[i] = value
+            return True
+    for j, k in enumerate(call.keywords):
+        if k.arg is not None and isinstance(k.value, ast.Name) and k.value.id == t:
+            if not all(_simple(x) for x in call.args) or not all(_simple(q.value) for q in call.keywords[:j]):
+                return False
+            k.value = value
+            return True
+    return False
+
+
 def canon_temps(tree: ast.Module) -> int:
     """Canonical form used by every rule: a local that only carries a value into the very next statement is folded away -
     `t = E; return t` -> `return E`, `t = E; <targets> = t` -> `<targets> = E` - when `t` has no other use in its function.  Both forms
@@ -237,6 +279,8 @@ def canon_temps(tree: ast.Module) -> int:
                             b.value = a.value
                         elif isinstance(b, ast.Assign) and isinstance(b.value, ast.Name) and b.value.id == t and not any(isinstance(x, ast.Name) and x.id == t for tg in b.targets for x in ast.walk(tg)):
                             b.value = a.value
+                        elif _fold_into(b, t, a.value):
+                            pass
                         else:
                             continue
                         del blk[i]
